@@ -28,7 +28,7 @@ REQUIRED_HITS = ['O6.refusal_after_reservation', 'O6.injected_sign_failure', 'O1
                  'O5.success_when_sufficient', 'O6.checked', 'branch.retry_loop', 'req.pay', 'req.claim_create', 'req.claim_update',
                  'req.support', 'req.purchase', 'req.spend_all', 'req.small_deficit', 'req.exact_cover', 'pool.has_received_purchase_payments', 'state.change_chain_exhausted_before_build', 'strategy.sqlite', 'strategy.random_draw',
                  'strategy.prefer_confirmed', 'strategy.only_confirmed', 'strategy.branch_and_bound', 'strategy.closest_match',
-                 'strategy.standard', 'uclass.round_under_sqlite', 'uclass.liquidation', 'uclass.whale', 'after.broadcast', 'after.keep_reserved']
+                 'strategy.standard', 'uclass.round_under_sqlite', 'uclass.liquidation', 'uclass.whale', 'after.broadcast', 'after.keep_reserved', 'after.stored_transaction_saved_again_while_a_build_is_kept']
 DUST = 1000
 
 
@@ -116,6 +116,7 @@ async def _run_wallet(rec, case):
         ledger = fx.ledger
         amounts = make_utxos(r, uclass, rate, case.get('big'))
         # fund in 1..4 funding transactions with different confirmation states
+        funded_txs, held = [], set()        # funding transactions (re-saved by "sync" events below); inputs of builds kept unreleased
         groups = [[] for _ in range(r.randrange(1, 5))]
         for a in amounts:
             groups[r.randrange(len(groups))].append((r.randrange(nacc), r.choice([0, 0, 1]), r.randrange(20), a, 'pay'))
@@ -125,7 +126,7 @@ async def _run_wallet(rec, case):
                 continue
             mixed = uclass == 'unconfirmed_mix' or r.random() < 0.25
             height, verified = r.choice([(10 + gi, True), (0, False), (-1, False), (12, False)]) if mixed else (10 + gi, True)
-            await fx.fund(g, height=height, is_verified=verified)
+            funded_txs.append((await fx.fund(g, height=height, is_verified=verified))[0])
         # money received for purchases (the seller's side of Transaction.purchase): typed `purchase` in the database and counted as spendable
         # funds by the balance, by get_utxos and by every in-memory strategy (observation of the C09 agent: the sqlite chooser left it out)
         if r.random() < (0.9 if uclass in ('tiny_wallet', 'single_big') else 0.3):
@@ -348,6 +349,13 @@ async def _run_wallet(rec, case):
                                            change_account, D, P)
                 if isinstance(sig_branch, tuple):
                     sig_branch, ok = sig_branch
+                if held:
+                    again = sorted({f"{i['txid']}:{i['nout']}" for i in minitx.parse(tx.raw)['inputs']} & held - set(pre_ids))
+                    if again:
+                        rec.violation('C03/O2/added-input-held-by-an-unreleased-transaction',
+                                      f'{kind} (strategy {strategy}): added input {again[0]} is held by an earlier build that was neither released nor '
+                                      f'broadcast (is_reserved in the database before this build: {pre.get(again[0], {}).get("is_reserved")})',
+                                      {'txo': again[0], 'strategy': strategy})
                 if D > 0 and P >= D:
                     rec.hit('O5.success_when_sufficient')
                 if sig_branch and sig_branch != 'violated':
@@ -365,6 +373,20 @@ async def _run_wallet(rec, case):
                     await ledger.release_tx(tx)
                 elif what == 'keep':
                     rec.hit('after.keep_reserved')
+                    held.update(f"{i['txid']}:{i['nout']}" for i in minitx.parse(tx.raw)['inputs'])
+                    if funded_txs and r.random() < 0.6:
+                        # the address-history sync saves a stored transaction again (it confirmed, or a second address of it was notified):
+                        # Ledger._sync_and_save_batch -> save_transaction_io_batch.  What the kept build holds stays held (seeded break
+                        # C03-I: the re-save recreated the txo rows, reservation flag included)
+                        ftx = funded_txs[r.randrange(len(funded_txs))]
+                        ftx.height = max(ftx.height, 10) + 1
+                        seen = {}
+                        for o in ftx.outputs:
+                            if o.script.is_pay_pubkey_hash or o.script.is_claim_involved:
+                                seen[o.get_address(ledger)] = o.pubkey_hash
+                        for address, h160 in seen.items():
+                            await ledger.db.save_transaction_io_batch([ftx], address, h160, f'{ftx.id}:{ftx.height}:')
+                        rec.hit('after.stored_transaction_saved_again_while_a_build_is_kept')
                 else:
                     rec.hit('after.broadcast')
                     await _broadcast(fx, tx)
